@@ -988,10 +988,17 @@ class PureScheduler:                                    # pylint: disable=r0902
                    for job in entry_jobs]
 
         while True:
-            done, pending \
-                = await asyncio.wait(pending,
-                                     timeout=self._remaining_timeout(),
-                                     return_when=asyncio.FIRST_COMPLETED)
+            try:
+                done, pending \
+                    = await asyncio.wait(pending,
+                                         timeout=self._remaining_timeout(),
+                                         return_when=asyncio.FIRST_COMPLETED)
+            except asyncio.CancelledError:
+                # this run is itself being cancelled - typically a nested
+                # scheduler whose enclosing scheduler times out or aborts;
+                # take our own jobs down with us instead of leaving them running
+                await self._tidy_tasks(pending)
+                raise
 
             done_ok = {t for t in done if not t._exception}
             await self._feedback(done_ok, "DONE")
